@@ -21,12 +21,23 @@ import catalogue  # noqa: E402
 ALL = [f"C{n:02d}" for n in range(1, 21) if n != 8]
 
 
+def _add_worktree(repo):
+    """`git worktree add`, retried: concurrent git worktree commands contend for one lock."""
+    import time
+    for attempt in range(6):
+        r_ = subprocess.run(["git", "-C", "/repo", "worktree", "add", "-q", "--detach", repo, "HEAD"], capture_output=True)
+        if r_.returncode == 0:
+            return
+        time.sleep(1 + attempt)
+    r_.check_returncode()
+
+
 def run_one(entry, props, tier="quick"):
     mid, file, old, new = entry
     scratch = tempfile.mkdtemp(prefix="verif_selftest_", dir="/tmp")
     repo = os.path.join(scratch, "repo")
     try:
-        subprocess.run(["git", "-C", "/repo", "worktree", "add", "-q", "--detach", repo, "HEAD"], check=True, capture_output=True)
+        _add_worktree(repo)
         path = os.path.join(repo, file)
         src = open(path).read()
         if old is None or src.count(old) != 1:
@@ -56,7 +67,7 @@ def run_seed(seed_dir, props, tier="quick"):
     scratch = tempfile.mkdtemp(prefix="verif_selftest_", dir="/tmp")
     repo = os.path.join(scratch, "repo")
     try:
-        subprocess.run(["git", "-C", "/repo", "worktree", "add", "-q", "--detach", repo, "HEAD"], check=True, capture_output=True)
+        _add_worktree(repo)
         r = subprocess.run(["git", "-C", repo, "apply", "--whitespace=nowarn", os.path.join(seed_dir, "patch.diff")],
                            capture_output=True, text=True)
         if r.returncode != 0:
